@@ -79,6 +79,45 @@ func baseHamt() *HostileCase {
 	return hc
 }
 
+// sharedChildCases: well-formed shards (full bitfield, matching fanout, correctly named links) in which every
+// link of a shard carries the same child CID. `depth` interior levels over one leaf shard are depth+1 blocks but
+// fanout^depth paths; Length (memoised per shard) and lookups stay linear in the block set.
+func sharedChildCases() []*HostileCase {
+	var out []*HostileCase
+	for _, fd := range [][2]int{{8, 14}, {64, 6}, {256, 4}} {
+		fanout, depth := fd[0], fd[1]
+		pad := len(fmt.Sprintf("%X", fanout-1))
+		all := make([]int, fanout)
+		for i := range all {
+			all[i] = i
+		}
+		hc := &HostileCase{Fam: "hostile", Root: "root", Class: "hostile", ID: fmt.Sprintf("hamt-sharedchild-%d-%d", fanout, depth),
+			Names: []string{"a", "zz"}, Ops: []string{"kind", "length", "lookup-string", "lookup-native"}}
+		hc.Blocks = append(hc.Blocks, HBlock{ID: "t0", IsRaw: true, Raw: []byte("target zero")})
+		level := func(id, target string, value bool) HBlock {
+			b := HBlock{ID: id, DataKind: "unixfs", U: shardU(fanout, all...)}
+			for i := 0; i < fanout; i++ {
+				name := fmt.Sprintf("%0*X", pad, i)
+				if value {
+					name += fmt.Sprintf("entry-%d", i)
+				}
+				b.Links = append(b.Links, HLink{Name: sp(name), Tsize: ip(11), Target: target})
+			}
+			return b
+		}
+		hc.Blocks = append(hc.Blocks, level("l0", "t0", true))
+		for d := 1; d <= depth; d++ {
+			id := fmt.Sprintf("l%d", d)
+			if d == depth {
+				id = "root"
+			}
+			hc.Blocks = append(hc.Blocks, level(id, fmt.Sprintf("l%d", d-1), false))
+		}
+		out = append(out, hc)
+	}
+	return out
+}
+
 type mutator struct {
 	name string
 	f    func(hc *HostileCase)
@@ -365,6 +404,11 @@ func reifyCases() []*HostileCase {
 	bad("hamt-bitfield-long", func(u *HUnixFS) { u.Data = []byte{1, 2, 3} })
 	for _, ty := range []int64{6, 7, 100, 1<<31 - 1, -1, -1 << 31} {
 		add("badtype", fmt.Sprintf("type-%d", ty), one(HBlock{DataKind: "unixfs", U: &HUnixFS{Type: tp(ty)}, Links: links}))
+	}
+	// DataType varints beyond 32 bits whose low bits spell a known type: still not one of the six types
+	for _, wt := range []uint64{1<<32 | 0, 1<<32 | 1, 1<<32 | 2, 1<<32 | 5, 1<<40 | 2, 1<<63 | 1} {
+		wt := wt
+		add("badtype", fmt.Sprintf("widetype-%d", wt), one(HBlock{DataKind: "unixfs", U: &HUnixFS{WideType: &wt, FileSize: up(3), BlockSizes: []uint64{3}, HashType: up(0x22), Fanout: up(8)}, Links: flinks}))
 	}
 	return out
 }
